@@ -490,6 +490,43 @@ class HarnessResult:
         self.events = []
 
 
+def _has_quantifier(e, seen=None):
+    seen = {} if seen is None else seen
+    k = e.get_id()
+    if k in seen:
+        return seen[k]
+    if z3.is_quantifier(e):
+        seen[k] = True
+        return True
+    r = any(_has_quantifier(c, seen) for c in e.children())
+    seen[k] = r
+    return r
+
+
+def _cover_reached():
+    """vacuity guard: the end of the harness is reachable, i.e. the path condition is satisfiable (`assert False`
+    there would be refuted).  Model finding under quantified assumptions (representation invariants, loop
+    invariants) is not something z3 does reliably, so the test has two stages: the full path condition with a
+    short budget; if z3 gives up, the quantifier-free part of it (every input constraint, `requires`, branch
+    decision and ground fact) must be satisfiable."""
+    CTX.solver.set("timeout", 4000)
+    try:
+        r = CTX.solver.check()
+        if r == z3.sat:
+            return True
+        if r == z3.unsat:
+            return False
+        qf = z3.Solver()
+        qf.set("timeout", 8000)
+        seen = {}
+        for a in CTX.solver.assertions():
+            if not _has_quantifier(a, seen):
+                qf.add(a)
+        return qf.check() == z3.sat
+    finally:
+        CTX.solver.set("timeout", CTX.timeout_ms)
+
+
 def run_sym(h, case_d, timeout_ms=20000, max_paths=None):
     """explore all paths of harness h for one case; returns HarnessResult"""
     reset_interp()
@@ -518,9 +555,7 @@ def run_sym(h, case_d, timeout_ms=20000, max_paths=None):
             try:
                 h.fn(Case(case_d))
                 res.completed += 1
-                ob = CTX.check(_CUR["prefix"] + "__cover__", False)
-                CTX.obligs.pop()
-                if ob.status == "refuted":
+                if not canary_refuted and _cover_reached():
                     canary_refuted = True
             except PathEnd:
                 pass
